@@ -660,8 +660,11 @@ _public_ int m_mod_start(m_mod_t *mod) {
     M_MOD_ASSERT_STATE(mod, M_MOD_IDLE | M_MOD_STOPPED);
     M_MOD_CONSUME_TOKEN(mod);
     
+    /* Keep the module alive: a callback run by this call may deregister it and drop the user's reference */
+    m_mem_ref(mod);
     int ret = start(mod, true);
     M_MOD_BOUND(m_mod_start);
+    m_mem_unref(mod);
     return ret;
 }
 
@@ -669,8 +672,11 @@ _public_ int m_mod_pause(m_mod_t *mod) {
     M_MOD_ASSERT_STATE(mod, M_MOD_RUNNING);
     M_MOD_CONSUME_TOKEN(mod);
     
+    /* Keep the module alive: a callback run by this call may deregister it and drop the user's reference */
+    m_mem_ref(mod);
     int ret = stop(mod, false);
     M_MOD_BOUND(m_mod_pause);
+    m_mem_unref(mod);
     return ret;
 }
 
@@ -678,8 +684,11 @@ _public_ int m_mod_resume(m_mod_t *mod) {
     M_MOD_ASSERT_STATE(mod, M_MOD_PAUSED);
     M_MOD_CONSUME_TOKEN(mod);
     
+    /* Keep the module alive: a callback run by this call may deregister it and drop the user's reference */
+    m_mem_ref(mod);
     int ret = start(mod, false);
     M_MOD_BOUND(m_mod_resume);
+    m_mem_unref(mod);
     return ret;
 }
 
@@ -687,8 +696,11 @@ _public_ int m_mod_stop(m_mod_t *mod) {
     M_MOD_ASSERT_STATE(mod, M_MOD_RUNNING | M_MOD_PAUSED);
     M_MOD_CONSUME_TOKEN(mod);
     
+    /* Keep the module alive: a callback run by this call may deregister it and drop the user's reference */
+    m_mem_ref(mod);
     int ret = stop(mod, true);
     M_MOD_BOUND(m_mod_stop);
+    m_mem_unref(mod);
     return ret;
 }
 
